@@ -33,34 +33,28 @@ def cases(seed, tier):
     return [{"kind": "gen", "seed": seed * 1_000_003 + 50001 + i, "force": FORCES[i % len(FORCES)], "n_params": 1, "budget": 3000, "jit": i % 2 == 0} for i in range(n)]
 
 
-def run_case(case):
-    I = impl()
+def _check_spec(I, mj, P, r, jit, tag):
+    """layout contract of one specification: returns (violations, evaluations, lay, V) or a raise-violation"""
     np = I.np
-    mj, meta, Ps, r = materialise_case(case)
-    P = Ps[0]
-    info = {"mj": mj, "meta": meta}
-    out = base_out(info, case)
-    rc = explicit_case(mj, [P], jit=case.get("jit", True), seed=case.get("seed", 0), meta=meta)
     vs = []
     try:
-        fns = ImplFns(mj, jit=case.get("jit", True))
+        fns = ImplFns(mj, jit=jit)
         V = [np.asarray(v) for v in fns.solve(params_impl(P))]
     except Exception as e:  # noqa: BLE001
-        out["violations"].append({"clause": "solve runs on a supported specification", "detail": f"{impl_site(e)}: {str(e)[:300]}", "key": f"raise:{impl_site(e)}", "shrink_case": rc})
-        return out
+        return [{"clause": "solve runs on a supported specification", "detail": f"{tag}{impl_site(e)}: {str(e)[:300]}", "key": f"raise:{impl_site(e)}"}], 0, None, None
     lay = model_layout(mj)
     Vm = model_solve(mj, P)
     G = dict(mj["states"])
     T = mj["n_periods"]
     evals = 0
     if len(V) != T:
-        vs.append({"clause": "a list of n_periods arrays in chronological order", "detail": f"{len(V)} arrays for {T} periods"})
+        vs.append({"clause": "a list of n_periods arrays in chronological order", "detail": f"{tag}{len(V)} arrays for {T} periods"})
     later_ok = True
     for t in reversed(range(min(T, len(V)))):
         L = lay[t]
         if list(V[t].shape) != L["shape"]:
             vs.append({"clause": "axes: [feasible restricted-state combinations] + unrestricted discrete states + continuous states, declaration order, grid lengths",
-                       "detail": f"period {t}: implementation shape {list(V[t].shape)}, layout contract {L['shape']} (restricted {L['sparse_states']}, unrestricted {L['dense_states']}, continuous {L['cont_states']})"})
+                       "detail": f"{tag}period {t}: implementation shape {list(V[t].shape)}, layout contract {L['shape']} (restricted {L['sparse_states']}, unrestricted {L['dense_states']}, continuous {L['cont_states']})"})
             break
         if later_ok and not Vm["undef"][t]:
             idxs = list(itertools.product(*[range(k) for k in L["shape"]]))
@@ -87,12 +81,37 @@ def run_case(case):
                 x = V[t][idx] if idx else V[t][()]
                 if not same_number(float(x), a):
                     vs.append({"clause": "entry at an index equals the value of the state the layout contract assigns to it",
-                               "detail": f"period {t} index {list(idx)} (state {dict(zip([s for s, _ in mj['states']], [p[1] for p in states[idxs.index(idx)]]))}): array {fr(float(x))}, specification {a}"})
+                               "detail": f"{tag}period {t} index {list(idx)} (state {dict(zip([s for s, _ in mj['states']], [p[1] for p in states[idxs.index(idx)]]))}): array {fr(float(x))}, specification {a}"})
                     break
         if any(y == "-inf" for y in Vm["V"][t]["data"]) or Vm["undef"][t]:
             later_ok = False
         if vs:
             break
+    return vs, evals, lay, V
+
+
+def run_case(case):
+    I = impl()
+    np = I.np
+    mj, meta, Ps, r = materialise_case(case)
+    P = Ps[0]
+    info = {"mj": mj, "meta": meta}
+    out = base_out(info, case)
+    rc = explicit_case(mj, [P], jit=case.get("jit", True), seed=case.get("seed", 0), meta=meta)
+    vs, evals, lay, V = _check_spec(I, mj, P, r, case.get("jit", True), "")
+    if V is None:
+        for v in vs:
+            v["shrink_case"] = rc
+            out["violations"].append(v)
+        return out
+    if not vs and len(mj["states"]) > 1:
+        # the same specification with its states (and choices) declared in the opposite order, built in the same process from
+        # the same function and grid objects: another layout, same contract
+        mj2 = dict(mj, states=list(reversed(mj["states"])), choices=list(reversed(mj["choices"])))
+        vs2, ev2, _, V2 = _check_spec(I, mj2, P, r, case.get("jit", True), "declaration order reversed: ")
+        vs.extend(v for v in vs2 if not v.get("key", "").startswith("raise:") or True)
+        evals += ev2
+        out["hist"]["reversed_variant"] = 1
     sizes = list(V[0].shape) if len(V) else []
     out["hist"]["distinct_axis_sizes"] = int(len(set(sizes)) == len(sizes) and len(sizes) > 1)
     out["hist"][f"ndim={len(sizes)}"] = 1
